@@ -1,13 +1,14 @@
 #!/bin/bash
 # tools/run_tier.sh quick|thorough [ids...] : run the registered checks of a
 # tier one after another in /verif against /repo; log per check.
-# VERIF_SEED is honoured (default 0).
+# VERIF_SEED is honoured (default 0); BUDGET=<seconds> overrides the tier's
+# wall budget per check (the registered commands use the default).
 cd /verif
 tier=${1:-quick}; shift
 ids=${@:-C01 C02 C03 C04 C05 C06 C07 C08 C09 C10 C11 C12 C13 C14 C15 C16 C17 C18 C19}
 mkdir -p /tmp/vmut/tier-$tier
 for p in $ids; do
-  ./check $p $tier > /tmp/vmut/tier-$tier/$p.log 2>&1
+  ./check $p $tier ${BUDGET:+--budget $BUDGET} > /tmp/vmut/tier-$tier/$p.log 2>&1
   echo "$p rc=$? $(grep -c VIOLATION /tmp/vmut/tier-$tier/$p.log) violations; $(grep ' runs, ' /tmp/vmut/tier-$tier/$p.log)"
   if [ "$tier" = thorough ]; then mkdir -p evidence/thorough; cp evidence/$p.json evidence/thorough/$p.json; fi
 done
